@@ -152,6 +152,7 @@ func registerIntrinsics(m *Machine) {
 		m.ex.Notes[m.argStr(a[0])]++
 		return nil
 	}
+	I["vf:vfB2U"] = func(m *Machine, fr *frame, a []Value) Value { return c.BoolToBV(m.term(a[0]), 64) } // branch-free
 	I["vf:vfSymbolic"] = func(m *Machine, fr *frame, a []Value) Value { return c.True }
 
 	// ----- fmt / errors / os -----
